@@ -10,7 +10,7 @@
    _aggregate_rectangles in the modelled order, use ROC_CI_EXTRA_POINTS = 20, and that the experimental functions'
    calls of _find_support_thresholds bind every parameter (defaults None / "fnr") is re-established from the current
    source on every run (coq/ties/Tie_rocci.v). *)
-From SA Require Import Model.RocCI Proofs.RocFacts Proofs.RocCIFacts.
+From SA Require Import Model.RocCI Proofs.RocFacts Proofs.RocCIFacts Proofs.TubeFuelFacts.
 Open Scope Q_scope.
 
 (* ---------------- _apply_rule_of_three ---------------- *)
@@ -240,9 +240,8 @@ Proof. exact sjr_wellformed. Qed.
 Print Assumptions C16_sjr_wellformed.
 
 (* fixed_width_band_ci, _partial: rates match thresholds, both bands have shape (n,2) and are NaN-free.  NOT proved:
-   lower <= upper (needs the displaced curves to stay monotone under np.interp) and termination of the tube search
-   without fuel (7 halvings of [0,1] reach the tolerance 1e-2; the model takes fuel, 8 in the executable instance).
-   The oracle checks ordering on the implementation. *)
+   lower <= upper (needs the displaced curves to stay monotone under np.interp); the oracle checks ordering on the
+   implementation.  The fuel of the tube search is immaterial (C16_fixed_width_fuel_immaterial below). *)
 Theorem C16_fixed_width_shape_partial : forall succ pred sqrtQ (H : Type) dc bs fuel s fnr0 fpr0 thr0 nb_points alpha cfg (hist : nat -> H) c,
   fixed_width_band_ci succ pred sqrtQ H dc bs fuel s fnr0 fpr0 thr0 nb_points alpha cfg hist = Ret c ->
   find_support_thresholds succ pred s fnr0 fpr0 thr0 nb_points default_nb_extra_points default_x_axis = Ret (rc_thresholds c) /\
@@ -251,6 +250,23 @@ Theorem C16_fixed_width_shape_partial : forall succ pred sqrtQ (H : Type) dc bs 
     some_rows (length (rc_thresholds c)) fb /\ some_rows (length (rc_thresholds c)) pb.
 Proof. exact fixed_width_shape. Qed.
 Print Assumptions C16_fixed_width_shape_partial.
+
+(* the fuel of the model's tube search is immaterial: starting from [0,1] the interval halves at every step and the loop
+   condition delta_max - delta_min > 1e-2 fails after exactly 7 halvings, so with any fuel >= 8 the out-of-fuel branch is
+   never reached and fixed_width_band_ci returns the same result — the fuelled model is Python's while loop *)
+Theorem C16_fixed_width_fuel_immaterial : forall succ pred sqrtQ (H : Type) dc bs f1 f2 s fnr0 fpr0 thr0 nb_points alpha cfg (hist : nat -> H),
+  (8 <= f1)%nat -> (8 <= f2)%nat ->
+  fixed_width_band_ci succ pred sqrtQ H dc bs f1 s fnr0 fpr0 thr0 nb_points alpha cfg hist
+  = fixed_width_band_ci succ pred sqrtQ H dc bs f2 s fnr0 fpr0 thr0 nb_points alpha cfg hist.
+Proof. exact fixed_width_fuel. Qed.
+Print Assumptions C16_fixed_width_fuel_immaterial.
+
+(* ... and when the containment test is total (non-empty curves) the search returns a radius in [0,1] *)
+Theorem C16_tube_search_returns : forall succ f x y xs ys k,
+  (forall d, exists c, is_contained succ x y xs ys k d = Ret c) -> (8 <= f)%nat ->
+  exists r, tube_search succ f x y xs ys k 0 1 = Ret r /\ 0 <= r /\ r <= 1.
+Proof. intros succ f x y xs ys k T F. apply (tube_search_returns succ 7); [exact T | reflexivity | lia]. Qed.
+Print Assumptions C16_tube_search_returns.
 
 (* ---------------- non-vacuity ---------------- *)
 (* 5 hard + 8 easy positives (low scores positive), 4 negatives, identity sampler (a callable returning the object),
